@@ -255,8 +255,14 @@ def argOf (collapse : Bool) (s : Bytes) : Bytes := if collapse then whiteSpaceCo
 def mapInt (f : IntFact) (s : Bytes) : Except NumErr Int :=
   let a := argOf f.collapse s
   match f.parser with
-  | .parseInt => (parseInt a f.base f.bitSize).map f.goType.wrap
-  | .parseUint => (parseUint a f.base f.bitSize).map (fun n => f.goType.wrap (n : Int))
+  | .parseInt =>
+    (match parseInt a f.base f.bitSize with
+     | .ok w => .ok (f.goType.wrap w)
+     | .error e => .error e)
+  | .parseUint =>
+    (match parseUint a f.base f.bitSize with
+     | .ok n => .ok (f.goType.wrap (n : Int))
+     | .error e => .error e)
   | _ => .error .unmodelled
 
 /-- `strconv.FormatInt(int64(v), 10)` / `strconv.FormatUint(uint64(v), 10)`; `none` = shape not understood -/
